@@ -17,6 +17,7 @@ import (
 	"os"
 	"path/filepath"
 	"regexp"
+	"runtime"
 	"sort"
 	"strings"
 	"sync"
@@ -25,9 +26,11 @@ import (
 
 	"git.arvados.org/arvados.git/lib/config"
 	"git.arvados.org/arvados.git/sdk/go/arvados"
+	"git.arvados.org/arvados.git/sdk/go/arvadosclient"
 	"git.arvados.org/arvados.git/sdk/go/ctxlog"
 	"github.com/prometheus/client_golang/prometheus"
 	"github.com/sirupsen/logrus"
+	"pgregory.net/rapid"
 )
 
 const vkToken = "verifsystemroottokenverifsystemroottokenverif00"
@@ -52,6 +55,14 @@ func init() {
 	// set-up (~10 ms each). The device id plays no role in C02/C04, so
 	// make the lookup fail fast ("using blank DeviceID").
 	os.Setenv("PATH", "/nonexistent-verif")
+	// handler.setup builds a keepclient for the pull worker; loading the
+	// system CA bundle for it costs ~20 ms per set-up and is irrelevant here.
+	arvadosclient.CertFiles = nil
+	// One P: keepstore's buffer pool is a sync.Pool of 64 MiB buffers whose
+	// per-P caches make almost every Get allocate (and clear) a new 64 MiB
+	// slice when goroutines move between Ps. The driver runs one process per
+	// shard, so parallelism comes from there.
+	runtime.GOMAXPROCS(1)
 }
 
 // vkLogBuf collects the handler's log output of the current case; it is
@@ -285,6 +296,21 @@ func vkSortedKeys(m map[string][]byte) []string {
 	sort.Strings(ks)
 	return ks
 }
+
+// vkPick draws an index in [0,n) with (nearly) uniform probability. rapid's
+// own integer generators favour small values, which would make the first
+// elements of every choice list dominate the few hundred cases of a run; the
+// drawn 64-bit value is therefore scrambled before it is reduced.
+func vkPick(t *rapid.T, label string, n int) int {
+	x := rapid.Uint64().Draw(t, label)
+	x += 0x9e3779b97f4a7c15
+	x = (x ^ (x >> 30)) * 0xbf58476d1ce4e5b9
+	x = (x ^ (x >> 27)) * 0x94d049bb133111eb
+	x ^= x >> 31
+	return int(x % uint64(n))
+}
+
+func vkPickStr(t *rapid.T, label string, xs []string) string { return xs[vkPick(t, label, len(xs))] }
 
 var vkScratchSeq int64
 
